@@ -595,6 +595,25 @@ def func_traces(rng, dataA, layout, tag):
         Xl, yl = lay(X, l), lay(y, l)
         return (lambda: list(train_test_split(Xl, yl, train_size=0.6, test_size=0.6, train_test_overlap=True, random_state=3))), {"X": Xl, "y": yl}
     pure("train_test_split(overlap)", tts)
+    # the regressor hand-over utilities: neither the data nor a regressor that was fitted by the caller may be touched
+    from sklearn.kernel_ridge import KernelRidge as _KR
+    from sklearn.linear_model import Ridge as _R
+    from skmatter.utils import check_krr_fit, check_lr_fit
+    def clf(l):
+        Xl, yl = lay(X, l), lay(Y2, l)
+        return (lambda: check_lr_fit(_R(alpha=0.1, fit_intercept=False), Xl, yl).coef_), {"X": Xl, "y": yl}
+    pure("check_lr_fit(unfitted)", clf)
+    def clff(l):
+        Xl, yl = lay(X, l), lay(Y2, l)
+        reg = _R(alpha=0.1, fit_intercept=False).fit(X, Y2)
+        return (lambda: check_lr_fit(reg, Xl, yl).coef_), {"X": Xl, "y": yl, "regressor.coef_": reg.coef_}
+    pure("check_lr_fit(fitted)", clff)
+    def ckf(l):
+        Xl, yl = lay(X, l), lay(Y2, l)
+        K = lay(X @ X.T, l)
+        reg = _KR(alpha=0.1, kernel="linear").fit(X, Y2)
+        return (lambda: check_krr_fit(reg, K, Xl, yl).dual_coef_), {"K": K, "X": Xl, "y": yl, "regressor.dual_coef_": reg.dual_coef_}
+    pure("check_krr_fit(fitted)", ckf)
     return out
 
 
